@@ -32,6 +32,12 @@ pub fn reindex_keys(r: &mut Rng, cols: &mut [ColCfg], tier: Tier) {
 		};
 		let mut head = [0u8; 8];
 		r.fill(&mut head);
+		// the collision group sometimes sits in the very first / very last page of the index file
+		match r.below(10) {
+			0 => head = [0xff; 8],
+			1 => head = [0; 8],
+			_ => {},
+		}
 		let ngroup = r.range(60, 75) as usize + if r.chance(1, 3) { r.range(10, 70) as usize } else { 0 };
 		while keys.len() < ngroup {
 			let mut k = vec![0u8; 32];
@@ -65,6 +71,48 @@ pub fn reindex_keys(r: &mut Rng, cols: &mut [ColCfg], tier: Tier) {
 		c.keys = keys;
 		if c.kind.is_preimage() {
 			c.preimage_vals = c.keys.iter().map(|_| ValSpec { len: 10, seed: r.next(), compressible: false }).collect();
+		}
+	}
+}
+
+/// Boundary pages of the index file: in some runs a few keys of the hash-indexed key-value
+/// columns are replaced by keys whose hash falls into the first or the last 32 pages of the 16-bit
+/// index (found by brute force under the run's salt).
+pub fn edge_keys(r: &mut Rng, cfg: &mut RunCfg) {
+	let salt = cfg.salt();
+	for c in cfg.cols.iter_mut() {
+		let uniform = c.kind == ColKind::HashUniform;
+		if !(c.kind == ColKind::Hash || uniform) || c.keys.is_empty() {
+			continue
+		}
+		if uniform && cfg.salt_zero {
+			for _ in 0..r.range(1, 3) {
+				let i = r.below(c.keys.len() as u64) as usize;
+				let hi = r.chance(2, 3);
+				let k = &mut c.keys[i];
+				k[0] = if hi { 0xff } else { 0 };
+				k[1] = if hi { 0xe0 | (k[1] & 0x1f) } else { k[1] & 0x1f };
+			}
+			let mut seen = std::collections::HashSet::new();
+			c.keys.retain(|k| seen.insert(k.clone()));
+			continue
+		}
+		for _ in 0..r.range(1, 3) {
+			let i = r.below(c.keys.len() as u64) as usize;
+			let hi = r.chance(2, 3);
+			let len = if uniform { 32 } else { r.range(1, 40) as usize };
+			for _ in 0..40_000 {
+				let mut k = vec![0u8; len];
+				r.fill(&mut k);
+				let h = crate::structural::hash_key(&k, &salt, uniform);
+				let top = u16::from_be_bytes([h[0], h[1]]);
+				if (hi && top >= 0xffe0) || (!hi && top < 0x20) {
+					if !c.keys.contains(&k) {
+						c.keys[i] = k;
+					}
+					break
+				}
+			}
 		}
 	}
 }
@@ -165,6 +213,8 @@ impl TreeGen {
 		let ColKind::Tree { append_only, rc_roots, .. } = cc.kind else { return None };
 		// keys touched by tree ops of this transaction (incl. trees referenced by inserts)
 		let mut touched: Vec<usize> = Vec::new();
+		// keys whose root count was changed by this transaction and whose tree is still live
+		let mut counted: Vec<usize> = Vec::new();
 		for (tc, op) in tx {
 			if *tc != c {
 				continue
@@ -182,14 +232,25 @@ impl TreeGen {
 					}
 					refs(spec, &mut touched);
 				},
-				TxOp::RefTree(k) | TxOp::DerefTree(k) => touched.push(*k),
+				TxOp::RefTree(k) | TxOp::DerefTree(k) =>
+					if rc_roots && !append_only && self.live[c as usize].contains_key(k) {
+						counted.push(*k)
+					} else {
+						touched.push(*k)
+					},
 				_ => {},
 			}
 		}
+		counted.retain(|k| !touched.contains(k));
 		let live_keys: Vec<usize> = self.live[c as usize].keys().cloned().filter(|k| !touched.contains(k)).collect();
+		touched.extend(counted.iter().cloned());
 		let free_keys: Vec<usize> =
 			(0..cc.keys.len()).filter(|k| !self.live[c as usize].contains_key(k) && !touched.contains(k)).collect();
-		let choice = r.below(100);
+		let mut choice = r.below(100);
+		if !counted.is_empty() && r.chance(1, 2) {
+			// several count changes of one tree inside one transaction
+			choice = 50 + r.below(50);
+		}
 		if (choice < 50 || live_keys.is_empty()) && !free_keys.is_empty() {
 			let k = *r.pick(&free_keys);
 			// wide sharing: a new root whose children are many distinct nodes of one wide live
@@ -218,7 +279,7 @@ impl TreeGen {
 		if live_keys.is_empty() {
 			return None
 		}
-		let k = *r.pick(&live_keys);
+		let k = if !counted.is_empty() && r.chance(2, 3) { *r.pick(&counted) } else { *r.pick(&live_keys) };
 		if choice < 62 && (append_only || rc_roots) {
 			if rc_roots && !append_only {
 				self.live[c as usize].get_mut(&k).unwrap().1 += 1;
@@ -356,6 +417,49 @@ pub fn gen_admin(r: &mut Rng, cfg: &RunCfg) -> Option<Op> {
 	Some(Op::Admin(a, r.chance(1, 2)))
 }
 
+/// A tree one of whose nodes (the root or a node one or two levels down, next to ordinary
+/// siblings) has more children than a node can record.
+pub fn unrepresentable_tree(r: &mut Rng) -> TreeSpec {
+	let leaf = |r: &mut Rng| TreeSpec { data: ValSpec { len: r.range(0, 40) as u32, seed: r.next(), compressible: false }, children: Vec::new() };
+	let n = *r.pick(&[256usize, 257, 300, 511, 512]);
+	let mut spec = TreeSpec {
+		data: ValSpec { len: 4, seed: r.next(), compressible: false },
+		children: (0..n).map(|_| ChildSpec::New(leaf(r))).collect(),
+	};
+	for _ in 0..r.below(3) {
+		let mut children: Vec<ChildSpec> = (0..r.below(4)).map(|_| ChildSpec::New(leaf(r))).collect();
+		let pos = r.below(children.len() as u64 + 1) as usize;
+		children.insert(pos, ChildSpec::New(spec));
+		spec = TreeSpec { data: ValSpec { len: r.range(0, 30) as u32, seed: r.next(), compressible: false }, children };
+	}
+	spec
+}
+
+/// Tree scenario: an insertion that cannot be represented, alone or after plain key-value
+/// operations (nothing before it claims slots in a tree column).
+pub fn gen_unrepresentable(r: &mut Rng, cfg: &RunCfg, ts: &TreeGen) -> Option<Op> {
+	let tcols: Vec<u8> = (0..cfg.cols.len()).filter(|c| cfg.cols[*c].kind.is_tree()).map(|c| c as u8).collect();
+	if tcols.is_empty() {
+		return None
+	}
+	let c = *r.pick(&tcols);
+	let live = ts.live_keys(c);
+	let free: Vec<usize> = (0..cfg.cols[c as usize].keys.len()).filter(|x| !live.contains(x)).collect();
+	if free.is_empty() {
+		return None
+	}
+	let mut tx = Vec::new();
+	for _ in 0..r.below(3) {
+		let kc = r.below(cfg.cols.len() as u64) as u8;
+		let cc = &cfg.cols[kc as usize];
+		if matches!(cc.kind, ColKind::Hash | ColKind::Btree) && !cc.keys.is_empty() {
+			tx.push((kc, TxOp::Set(r.below(cc.keys.len() as u64) as usize, ValSpec { len: r.range(0, 50) as u32, seed: r.next(), compressible: false })));
+		}
+	}
+	tx.push((c, TxOp::InsertTree(*r.pick(&free), unrepresentable_tree(r))));
+	Some(Op::BadCommit { tx, bg_err: false })
+}
+
 pub fn gen_reject(r: &mut Rng, cfg: &RunCfg, big_max: u32, ts: &mut TreeGen) -> Option<Op> {
 	// a valid transaction (not applied to the generator's tree tracking: it will be refused)
 	let mut scratch = TreeGen { live: ts.live.clone(), locked: ts.locked.clone() };
@@ -418,12 +522,7 @@ pub fn gen_reject(r: &mut Rng, cfg: &RunCfg, big_max: u32, ts: &mut TreeGen) -> 
 					if free.is_empty() {
 						None
 					} else {
-						let n = *r.pick(&[256usize, 257, 300, 511, 512]);
-						let spec = TreeSpec {
-							data: ValSpec { len: 4, seed: r.next(), compressible: false },
-							children: (0..n).map(|_| ChildSpec::New(leaf.clone())).collect(),
-						};
-						Some(TxOp::InsertTree(*r.pick(&free), spec))
+						Some(TxOp::InsertTree(*r.pick(&free), unrepresentable_tree(r)))
 					}
 				},
 			},
